@@ -36,6 +36,7 @@ import (
 	"github.com/resonatehq/resonate/verifharness/internal/dump"
 	"github.com/resonatehq/resonate/verifharness/internal/gen"
 	"github.com/resonatehq/resonate/verifharness/internal/lean"
+	"github.com/resonatehq/resonate/verifharness/internal/monitor"
 
 	_ "github.com/mattn/go-sqlite3"
 )
@@ -129,6 +130,7 @@ type world struct {
 	rdb    *sql.DB
 	events []M
 	reg    *metrics.Metrics
+	prev   map[string]any // previous implementation dump (for the property monitors)
 }
 
 func newWorld(path string, cfg Cfg, bg bool) (*world, error) {
@@ -239,6 +241,7 @@ func sortedEvents(evs []any) []string {
 // forcePanics: execute steps for which the model predicts a panic anyway (used in a subprocess to
 // confirm that the real implementation dies there)
 var forcePanics bool
+var monitors = map[string]bool{}
 
 type runner struct {
 	drv    *lean.Driver
@@ -369,6 +372,13 @@ func (r *runner) apply(w *world, st Step) (M, bool) {
 		d, err := dump.Sqlite(w.rdb)
 		if err != nil {
 			return M{"harness": err.Error()}, false
+		}
+		if nd, err := lean.NormalizeValue(d); err == nil {
+			cur := nd.(map[string]any)
+			if pid, what := monitor.Check(monitors, w.prev, cur); pid != "" {
+				return M{"what": "property monitor failed on the implementation", "property": pid, "diff": what, "property_violation": true, "step": st}, false
+			}
+			w.prev = cur
 		}
 		modelErr := rep["err"] != nil
 		if modelErr != implErr {
@@ -695,10 +705,16 @@ func main() {
 	replay := flag.String("replay", "", "replay a recorded divergence file")
 	corpus := flag.String("corpus", "", "directory of recorded scripts to run first")
 	out := flag.String("out", "", "summary JSON path")
+	mon := flag.String("monitor", "", "comma-separated property ids whose monitors run on the implementation dumps")
 	flag.BoolVar(&forcePanics, "force", false, "execute predicted panics against the implementation (the process is expected to die)")
 	flag.Parse()
 	slog.SetDefault(slog.New(slog.NewTextHandler(io.Discard, nil)))
 	_ = rand.Int
+	for _, m := range strings.Split(*mon, ",") {
+		if m != "" {
+			monitors[m] = true
+		}
+	}
 
 	os.MkdirAll(*work, 0o755)
 	drv, err := lean.Start(*driver)
@@ -736,6 +752,7 @@ func main() {
 		summary["divergence"] = info2["what"]
 		summary["diff"] = fmt.Sprint(info2["diff"], info2["impl_only"], info2["model_only"], info2["panic"])
 		summary["predicted_panic"] = predicted
+		summary["property_violation"] = info2["property_violation"] == true || predicted
 	}
 
 	files := []string{}
